@@ -306,6 +306,12 @@ class Piece:
                 p = toks[lps[occ - 1][1]].end
                 self._add(p, p, "\n" + text + "\n", "insert")
                 continue
+            if where == "loop_end":
+                if occ < 1 or occ > len(lps):
+                    raise Undecided(f"{fn.name}: loop #{occ} not found")
+                p = toks[match_close(toks, lps[occ - 1][1])].start
+                self._add(p, p, "\n" + text + "\n", "insert")
+                continue
             pos = -1
             for _ in range(occ):
                 pos = ftext.find(snippet, pos + 1)
